@@ -8,7 +8,7 @@ use crate::report::{par_run, Report};
 use crate::rng::Rng;
 use serde_json::json;
 
-pub const RULE: &str = "All 22 indicators, periods 1..=8 for every (prefix kind x level x feed form) combination plus sampled larger periods: an active prefix (none = stream start, after-reset, 1..n+2 bars then reset, random walk, spikes 1e6x the level, alternating decades) followed by flat stretches (all price fields equal; lengths 3n+3, 100, 1100, 5000) at levels {1e-3,0.1,1,37.5,1e6,-37.5,-1e-3,0 (0 not for ROC/PPO)} plus four seeded levels per combination (two- and four-decimal prices, arbitrary doubles of either sign in 1e-3..1e6), and for bars also zero-volume stretches with moving prices. Judged at every step of a stretch at which the harness's own copy of the window is degenerate (all n, or n+1 for ROC/ER/MFI, prices equal, or zero money flow), and at every step of the stretch for the EMA-based indicators: output finite and inside the documented range; exactly 50 (FAST), 0 (CCI, ROC, TR); MAD <= tau(t)*M; SD <= sqrt(tau(t))*M; BB bands within |k|*sqrt(tau(t))*M of the average. Non-trivial: a stretch preceded by activity (or at stream start / after reset) with >= 1 degenerate-window step; distinct by construction (combination index) .";
+pub const RULE: &str = "All 22 indicators, periods 1..=8 for every (prefix kind x level x feed form) combination plus sampled larger periods: an active prefix (none = stream start, after-reset, 1..n+2 bars then reset, for the window-only indicators MIN/MAX/FAST/ROC/ER/TR also NaN, inf and unrepresentable-swing ticks, random walk, spikes 1e6x the level, alternating decades) followed by flat stretches (all price fields equal; lengths 3n+3, 100, 1100, 5000) at levels {1e-3,0.1,1,37.5,1e6,-37.5,-1e-3,0 (0 not for ROC/PPO)} plus four seeded levels per combination (two- and four-decimal prices, arbitrary doubles of either sign in 1e-3..1e6), and for bars also zero-volume stretches with moving prices. The instance is cloned / restored from bytes / clone_from-assigned at the start of a stretch and again inside it. Judged at every step of a stretch at which the harness's own copy of the window is degenerate (all n, or n+1 for ROC/ER/MFI, prices equal, or zero money flow), and at every step of the stretch for the EMA-based indicators: output finite and inside the documented range; exactly 50 (FAST), 0 (CCI, ROC, TR); MAD <= tau(t)*M; SD <= sqrt(tau(t))*M; BB bands within |k|*sqrt(tau(t))*M of the average. Non-trivial: a stretch preceded by activity (or at stream start / after reset) with >= 1 degenerate-window step; distinct by construction (combination index) .";
 
 /// flat price levels: positive ones of several magnitudes, two negative ones (spreads, de-meaned series)
 /// and exactly zero (the latter not for ROC and PPO, whose formula divides by the price level itself)
@@ -37,6 +37,16 @@ pub enum Prefix {
     /// a few bars (fewer than, equal to or just above the period), then reset(): the stretch starts a new
     /// stream on an instance whose window was only partly written
     ShortReset,
+    /// ordinary activity containing a NaN tick, an infinite tick and a finite swing whose size is not
+    /// representable (1e308 to -1e308). Only for the indicators that keep nothing but their window (MIN, MAX,
+    /// FAST, ROC, ER, TR): for them "after arbitrary earlier activity" includes this, since whatever left
+    /// the window is gone; an accumulating indicator legitimately stays poisoned by a NaN (C12 asks it to
+    /// return, not to recover).
+    Poison,
+}
+
+pub fn window_only(kind: Kind) -> bool {
+    matches!(kind, Kind::Min | Kind::Max | Kind::Fast | Kind::Roc | Kind::Er | Kind::Tr)
 }
 
 fn doc_range(kind: Kind) -> Option<(f64, f64)> {
@@ -129,6 +139,18 @@ pub fn build(p: &Params, bars: bool, prefix: Prefix, level: f64, zero_volume_str
         Prefix::Spikes => mk_active(rng, plen, level, &mut inputs, &mut flags, true, false),
         Prefix::AltDecades => mk_active(rng, plen, level, &mut inputs, &mut flags, false, true),
         Prefix::Short(k) => mk_active(rng, k, level, &mut inputs, &mut flags, false, false),
+        Prefix::Poison => {
+            mk_active(rng, plen, level, &mut inputs, &mut flags, false, false);
+            let poison = [f64::NAN, 1e308, -1e308, f64::INFINITY, f64::NEG_INFINITY, f64::MAX];
+            let k = rng.below(poison.len());
+            for j in 0..(1 + rng.below(3)) {
+                let v = poison[(k + j) % poison.len()];
+                inputs.push(if bars { In::B(Bar { o: v, h: v, l: v, c: v, v: 1.0 }) } else { In::S(v) });
+                flags.push(false);
+            }
+            let tail = rng.below(n + 2);
+            mk_active(rng, tail, level, &mut inputs, &mut flags, false, false);
+        }
         Prefix::ShortReset => {
             let k = 1 + rng.below(n + 2);
             mk_active(rng, k, level, &mut inputs, &mut flags, false, false);
@@ -183,13 +205,23 @@ pub fn run_scenario(rep: &mut Report, p: &Params, sc: &Scenario, tag: &str) -> u
     let mut rm = RefModel::new(p);
     let mut judged = 0;
     let kind = p.kind;
+    let mut stretch_start = 0usize;
     for (i, x) in sc.inputs.iter().enumerate() {
         if sc.reset_at == Some(i) {
             let _ = inst.reset();
             rm.reset();
         }
-        if i > 0 && sc.in_stretch[i] && !sc.in_stretch[i - 1] && i % 2 == 0 {
-            inst.perturb(i / 2); // clone- or serde-swap right where a flat stretch begins
+        if i > 0 && sc.in_stretch[i] && !sc.in_stretch[i - 1] {
+            stretch_start = i;
+            if i % 2 == 0 {
+                inst.perturb(i / 2); // clone- or serde-swap right where a flat stretch begins
+            }
+        }
+        // ... and again inside the stretch, once the window is flat already (a copy restored there must
+        // not depend on anything but the window either)
+        if sc.in_stretch[i] && i > stretch_start && i - stretch_start == p.max_period() + 1 + stretch_start % (p.max_period() + 1) {
+            inst.perturb(stretch_start + 1);
+            rep.count("restores_inside_a_flat_stretch");
         }
         let r = rm.push(x);
         let out = match inst.feed(x) {
@@ -302,7 +334,7 @@ pub fn run_scenario(rep: &mut Report, p: &Params, sc: &Scenario, tag: &str) -> u
 
 pub fn run(ctx: &Ctx) -> Report {
     let mut jobs = Vec::new();
-    let prefixes = [Prefix::None, Prefix::AfterReset, Prefix::Walk, Prefix::Spikes, Prefix::AltDecades, Prefix::Short(1), Prefix::Short(2), Prefix::ShortReset];
+    let prefixes = [Prefix::None, Prefix::AfterReset, Prefix::Walk, Prefix::Spikes, Prefix::AltDecades, Prefix::Short(1), Prefix::Short(2), Prefix::ShortReset, Prefix::Poison];
     let big: &[usize] = if ctx.quick() { &[14, 50] } else { &[14, 50, 200, 512] };
     let mut idx = 0u64;
     let reps = ctx.pick(3, 60);
@@ -313,6 +345,9 @@ pub fn run(ctx: &Ctx) -> Report {
         }
         for n in periods {
             for (pi, prefix) in prefixes.iter().enumerate() {
+                if *prefix == Prefix::Poison && !window_only(kind) {
+                    continue;
+                }
                 for li in 0..LEVELS.len() + SEEDED_LEVEL_CLASSES {
                     let level = LEVELS.get(li).copied();
                     if level == Some(0.0) && matches!(kind, Kind::Roc | Kind::Ppo) {
@@ -361,6 +396,7 @@ pub fn run(ctx: &Ctx) -> Report {
             Prefix::AltDecades => "after_alt_decades",
             Prefix::Short(_) => "after_short_prefix",
             Prefix::ShortReset => "after_short_prefix_and_reset",
+            Prefix::Poison => "after_nonfinite_or_overflowing_ticks",
         });
         let tag = if zero_vol { format!("{}.zero_volume", tag) } else { tag };
         let j = run_scenario(rep, &p, &sc, &tag);
@@ -374,7 +410,7 @@ pub fn run(ctx: &Ctx) -> Report {
         }
     });
     if ctx.only.is_none() {
-        for key in ["degenerate_window_steps", "ema_based_stretch_steps", "neutral_exact_checked", "stretches_ge_5000", "prefix.after_spikes", "prefix.stream_start", "prefix.after_reset", "prefix.after_short_prefix_and_reset", "seeded_levels"] {
+        for key in ["degenerate_window_steps", "ema_based_stretch_steps", "neutral_exact_checked", "stretches_ge_5000", "prefix.after_spikes", "prefix.stream_start", "prefix.after_reset", "prefix.after_short_prefix_and_reset", "prefix.after_nonfinite_or_overflowing_ticks", "restores_inside_a_flat_stretch", "seeded_levels"] {
             if rep.counters.get(key).copied().unwrap_or(0) == 0 {
                 rep.inconclusive.push(format!("coverage floor missed: {} = 0", key));
             }
